@@ -2,7 +2,7 @@
 """Runs every mutant of every catalogue (mutants/<ID>.json) against the quick check of its property, in a private
 worktree (VERIF_REPO, default /tmp/mwt), and records the outcome in mutants/results.json:
   {ID: {mutant name: {"rc": 0|1|2, "caught_by": [violation keys], "expect": "...", "part": "..."}}}
-A mutant that names a part is run against that part only (VERIF_ONLY_PART). usage: mutate_sweep.py [ID ...]"""
+A mutant that names a part is run against that part only (VERIF_ONLY_PART). usage: mutate_sweep.py [ID | ID:mutant-name ...]"""
 import json, os, re, subprocess, sys, time, glob, fcntl
 VERIF=os.path.dirname(os.path.abspath(__file__))
 REPO=os.environ.get("VERIF_REPO","/tmp/mwt")
@@ -16,12 +16,21 @@ def save(pid,name,entry):
         cur=json.load(open(out)) if os.path.exists(out) else {}
         cur.setdefault(pid,{})[name]=entry
         json.dump(cur,open(out+".tmp","w"),indent=1,sort_keys=True); os.replace(out+".tmp",out)
-ids=sys.argv[1:] or sorted(os.path.basename(f)[:-5] for f in glob.glob(os.path.join(VERIF,"mutants","C??.json")))
+only={}  # "ID:mutant name" arguments restrict a property to the named mutants
+args=[]
+for a in sys.argv[1:]:
+    if ":" in a:
+        i,n=a.split(":",1); only.setdefault(i,set()).add(n)
+        if i not in args: args.append(i)
+    else:
+        args.append(a)
+ids=args or sorted(os.path.basename(f)[:-5] for f in glob.glob(os.path.join(VERIF,"mutants","C??.json")))
 checks={i:json.load(open(os.path.join(VERIF,"checks",i+".json"))) for i in ids}
 for pid in ids:
     cat=json.load(open(os.path.join(VERIF,"mutants",pid+".json")))
     parts={p["name"] for p in checks[pid]["parts"]}
     for m in cat:
+        if pid in only and m["name"] not in only[pid]: continue
         srcs={}; news={}; bad=False
         for e in (m.get("edits") or [{"find":m["find"],"replace":m["replace"]}]):
             path=os.path.join(REPO,e.get("file") or m["file"])
